@@ -546,10 +546,6 @@ pub fn verdict_c12(h: &EncHistory, sc: &mut EScratch, st: &mut Stats, enumerated
     if h.text.iter().any(|c| *c >= 0x80) && out.calls.len() >= 2 {
         nontrivial_mark(st, enumerated, h);
     }
-    if !out.completed {
-        // attributed to C06/C08; nothing to judge here
-        return None;
-    }
     let oenc = h.enc.output_encoding();
     let algo = enc_algo_for(h.enc);
     let is2022 = algo == EncAlgo::Iso2022Jp;
@@ -571,6 +567,11 @@ pub fn verdict_c12(h: &EncHistory, sc: &mut EScratch, st: &mut Stats, enumerated
         if is2022 && c.pending_after {
             st.class("iso-2022-jp-call-ending-outside-ASCII-state");
         }
+    }
+    if !out.completed {
+        // the history ended early (no progress with an undersized buffer, or a fault that C06/C08
+        // judge): the per-call invariants above were checked on the calls that were made
+        return None;
     }
     if is2022 && iso2022jp_pending(&out.out) {
         return Some((format!("after the final call the ISO-2022-JP stream {} has not returned to the ASCII state", fw::hex(&out.out)), "C12:final-state".into()));
